@@ -249,6 +249,9 @@ func runLifecycleEvents(rc *core.RunCtx) {
 }
 
 func init() {
+	core.Register(&core.Profile{Property: "C12", Name: "lifecycle-events-budget", Weight: 1, Cfg: cfgEngine,
+		Run: runLifecycle(lcParams{focus: "C12", crashes: true, lifeCrashes: true, exceed: true}),
+		Doc: "the budget scenario of C06 with a monitor (an actor driven beyond its restart budget, also one that never gets through Initialized/Started); oracle: the lifecycle events of 'lifecycle-events', in particular one ActorStoppedEvent for every process that ended"})
 	core.Register(&core.Profile{Property: "C12", Name: "eventstream", Weight: 4, Cfg: cfgEngine, Run: runEvents,
 		Doc: "one real Engine; 1-3 subscriber actors, 1-3 tasks running subscribe/unsubscribe/broadcast scripts where the subscriber PID is passed as the original pointer, a clone or NewPID(address,id); each subscriber is owned by one task so the owner's broadcasts are program-ordered with its subscription changes; a final broadcast after quiescence; oracle: owner broadcasts delivered exactly once iff subscribed at that point, nothing after unsubscribe (by address and id), no duplicates after double subscription, per-broadcaster order, concurrent broadcasts at most once"})
 	core.Register(&core.Profile{Property: "C12", Name: "lifecycle-events", Weight: 2, Cfg: cfgEngine, Run: runLifecycleEvents,
